@@ -8,6 +8,7 @@ import (
 	"strings"
 	"testing"
 
+	"github.com/trustbloc/sidetree-go/pkg/document"
 	"github.com/trustbloc/sidetree-go/pkg/patch"
 	"github.com/trustbloc/sidetree-go/pkg/versions/1_0/doccomposer"
 	"github.com/trustbloc/sidetree-go/pkg/versions/1_0/operationparser/patchvalidator"
@@ -49,6 +50,16 @@ func protectedCanon(doc interface{}) string {
 			out[k] = v
 		}
 	}
+	// ... and the keys and services as the library itself reads them out of the document (what resolution publishes)
+	if m != nil {
+		view := document.DidDocumentFromJSONLDObject(m)
+		if pks, err := jsonRoundTrip(view.PublicKeys()); err == nil && !isEmptyList(pks) {
+			out["keys as read by the library"] = pks
+		}
+		if svcs, err := jsonRoundTrip(view.Services()); err == nil && !isEmptyList(svcs) {
+			out["services as read by the library"] = svcs
+		}
+	}
 	return refJCS(out)
 }
 
@@ -62,7 +73,7 @@ func TestC11_IetfCannotTouchKeys(t *testing.T) {
 	composer := doccomposer.New()
 	check(t, "C11", 6000, func(t *rapid.T) {
 		doc := genDocument(t, false)
-		if _, ok := doc["publicKey"]; !ok {
+		if _, ok := doc["publicKey"]; !ok && rapid.IntRange(0, 3).Draw(t, "keepWithoutKeys") > 0 {
 			doc["publicKey"] = genKeyList(t, 1, 3, false)
 		}
 		if _, ok := doc["service"]; !ok && rapid.Bool().Draw(t, "forceSvc") {
@@ -130,6 +141,11 @@ func TestC11_IetfCannotTouchKeys(t *testing.T) {
 				if op == nil {
 					op = map[string]interface{}{"op": "add", "path": "/fresh", "value": "v"}
 				}
+			}
+			if rapid.IntRange(0, 9).Draw(t, "aliasMember") == 0 {
+				// members with the names other vocabularies use for keys and services are ordinary members here
+				op = map[string]interface{}{"op": "add", "path": "/" + rapid.SampledFrom([]string{"verificationMethod", "publicKeys", "services", "authentication", "keys"}).Draw(t, "alias"),
+					"value": rapid.SampledFrom([]interface{}{genKeyList(t, 1, 2, false), genServiceList(t, 1, 2)}).Draw(t, "aliasValue")}
 			}
 			switch op["op"] {
 			case "add", "replace", "test":
